@@ -176,6 +176,7 @@ func Shrink(h *History, prop, class string, eval evalFn, budget int) *History {
 		func(c *Config) { c.Defer = false },
 		func(c *Config) { c.PanicKind = 0 },
 		func(c *Config) { c.ValMask = 0 },
+		func(c *Config) { c.AltMask = 0 },
 	} {
 		c := cur.Clone()
 		mut(&c.Cfg)
@@ -228,6 +229,7 @@ func specMutations(f *Func) []Func {
 	add(func(c *Func) bool { ok := c.LocPC; c.LocPC = false; return ok })
 	add(func(c *Func) bool { ok := c.ReuseInfo; c.ReuseInfo = false; return ok })
 	add(func(c *Func) bool { ok := c.Export; c.Export = false; return ok })
+	add(func(c *Func) bool { ok := c.OptNoise; c.OptNoise = false; return ok })
 	add(func(c *Func) bool { ok := c.DurNs != 0; c.DurNs = 0; return ok })
 	if f.Cat >= 0 {
 		// the signature of a declared catalogue function is fixed
